@@ -176,7 +176,7 @@ Definition note1 (m : ms) (nw : bool) (t : Z) (s : tstate) : ms :=
      (if s_unsafe s || s_cancel s then add_z t (m_unsafe m) else m_unsafe m)
      (if s_safe s && negb c then add_z t safe0 else safe0)
      (m_local m) (m_clock m) (m_insync m) (m_chain m) (m_vnow m) (m_vpersist m)
-     (if pz (s_proof s) =? -1 then m_proofs m else (t, pz (s_proof s)) :: m_proofs m).
+     (if pz (s_proof s) =? -1 then m_proofs m else (t, pz (s_proof s)) :: m_proofs m) (m_body m).
 
 Lemma note_event_ev_of m e :
   note_event m (ev_of e) = match tev e with Some (nw, t, s) => note1 m nw t s | None => m end.
@@ -200,7 +200,7 @@ Lemma notes_frame m evs :
   let F := notes m evs in
   m_pool F = m_pool m /\ m_vouched F = m_vouched m /\ m_conflicted F = m_conflicted m /\
   m_local F = m_local m /\ m_clock F = m_clock m /\ m_insync F = m_insync m /\
-  m_chain F = m_chain m /\ m_vnow F = m_vnow m /\ m_vpersist F = m_vpersist m.
+  m_chain F = m_chain m /\ m_vnow F = m_vnow m /\ m_vpersist F = m_vpersist m /\ m_body F = m_body m.
 Proof.
   induction evs as [|e evs IH] using rev_ind; [cbn; tauto|].
   cbv zeta in *. rewrite notes_snoc. destruct (tev e) as [[[nw t] s]|]; [|exact IH].
@@ -351,6 +351,24 @@ Proof.
            apply tev_in_single in H1. destruct H1 as [H1|H1]; subst e; discriminate.
 Qed.
 
+Lemma add_z_NoDup t l : NoDup l -> NoDup (add_z t l).
+Proof.
+  intros H. unfold add_z. destruct (mem t l) eqn:E; [exact H|]. apply mem_false in E.
+  apply NoDup_app. split; [exact H|]. split; [|apply NoDup_singleton].
+  intros x Hx Hx'. apply elem_of_list_singleton in Hx'. subst. contradiction.
+Qed.
+
+Lemma remove_z_NoDup t l : NoDup l -> NoDup (remove_z t l).
+Proof. intros H. unfold remove_z. apply NoDup_filter, H. Qed.
+
+Lemma notes_live_NoDup m evs : NoDup (m_live m) -> NoDup (m_live (notes m evs)).
+Proof.
+  intros H. induction evs as [|e evs IH] using rev_ind; [exact H|].
+  rewrite notes_snoc. destruct (tev e) as [[[nw t] s]|]; [|exact IH].
+  unfold note1. cbn [m_live]. destruct (cnf _ s); [apply remove_z_NoDup, IH|].
+  destruct nw; [apply add_z_NoDup, IH|exact IH].
+Qed.
+
 (* live: steps whose notifications are all unconfirmed only add *)
 Lemma notes_live_add m evs x :
   (forall y s, tev_in evs y s -> cnf (m_chain m) s = false) ->
@@ -423,8 +441,8 @@ Proof.
       * intros [H1 H2]. split; [exact H1|tauto].
 Qed.
 
-Lemma lookup_seen_cons m t c x pool dl lv vo cf us sf lo ck sy ch vn vp pr :
-  lookup_seen (MS pool dl lv ((t, c) :: m_seen m) vo cf us sf lo ck sy ch vn vp pr) x =
+Lemma lookup_seen_cons m t c x pool dl lv vo cf us sf lo ck sy ch vn vp pr bd :
+  lookup_seen (MS pool dl lv ((t, c) :: m_seen m) vo cf us sf lo ck sy ch vn vp pr bd) x =
   if t =? x then Some c else lookup_seen m x.
 Proof. unfold lookup_seen. cbn. destruct (t =? x); reflexivity. Qed.
 
@@ -463,8 +481,8 @@ Proof.
 Qed.
 
 (* the last proof notified *)
-Lemma lookup_proof_cons m t p x pool dl lv se vo cf us sf lo ck sy ch vn vp :
-  lookup_proof (MS pool dl lv se vo cf us sf lo ck sy ch vn vp ((t, p) :: m_proofs m)) x =
+Lemma lookup_proof_cons m t p x pool dl lv se vo cf us sf lo ck sy ch vn vp bd :
+  lookup_proof (MS pool dl lv se vo cf us sf lo ck sy ch vn vp ((t, p) :: m_proofs m) bd) x =
   if t =? x then Some p else lookup_proof m x.
 Proof. unfold lookup_proof. cbn. destruct (t =? x); reflexivity. Qed.
 
@@ -588,7 +606,7 @@ Proof.
 Qed.
 
 Lemma flow_valid_valid delay all : flow_valid delay all = true ->
-  valid delay all /\ hyp_from (n_init delay) [] all = true.
+  valid delay all /\ hyp_from (n_init delay) all = true.
 Proof.
   unfold flow_valid. rewrite !andb_true_iff.
   intros [[[[[Hd Hc] Hn] Ho] Hb] Hh].
